@@ -44,4 +44,5 @@ try:
 finally:
     subprocess.run(['git', '-C', '/repo', 'worktree', 'remove', '--force', d], capture_output=True)
     shutil.rmtree(d, ignore_errors=True)
+    shutil.rmtree(os.path.join('/verif/replays-alt', os.path.basename(d)), ignore_errors=True)
     subprocess.run(['git', '-C', '/repo', 'worktree', 'prune'], capture_output=True)
